@@ -14,7 +14,7 @@ for mp in sorted(glob.glob("/verif/seeded/*/meta.json")) + sorted(glob.glob("/ve
                  (ev.get("violation_lines") or [""])[-1][:140].replace("|", "/"), m.get("followup", "")))
 with open("/verif/seeded/SUMMARY.md", "w") as f:
     f.write("# Independently seeded breaking changes\n\nOne fresh sub-agent per property and round, given only the property text and a scratch "
-            "worktree of /repo (rounds 2 and 3: also the summaries of the earlier changes, to be avoided; round 3 for C07, C14, C15, C18, C19 ran on the tree after the late repairs; round 3 for C10-C13, C16, C17, C20 was run in a later session, where the existing tests were also re-run by seed_eval.py itself with the change applied); it had to make a change under include/ that compiles, keeps the existing tests green and breaks the "
+            "worktree of /repo (rounds 2 and 3: also the summaries of the earlier changes, to be avoided; round 3 for C07, C14, C15, C18, C19 ran on the tree after the late repairs; round 3 for C10-C13, C16, C17, C20 was run in a later session, where the existing tests were also re-run by seed_eval.py itself with the change applied; round 4 (C02, C06, C08, C09, C14, C19) likewise, each agent told about the three earlier changes); it had to make a change under include/ that compiles, keeps the existing tests green and breaks the "
             "property, and to demonstrate it. `tools/seed_eval.py` applied each patch to /repo, ran the property's quick check "
             "(seeds 1..3 until caught), and undid it.\n\n| id | change (agent's summary) | files | tests green | quick check | what it reported | follow-up |\n|---|---|---|---|---|---|---|\n")
     for r in sorted(rows):
